@@ -63,7 +63,7 @@ type scanPage struct {
 }
 
 func c18(r *ev.Run) {
-	r.Rule("cursor codec: boundary and PRNG (node index, node cursor < 2^48) pairs; iteration: 1-12 seed nodes, PRNG key distributions (empty nodes, one huge node), per-node scripted cursor sequences of length 1-30 with arbitrary distinct values < 2^48 (incl. >= 2^47) ending in 0, COUNT / MATCH / TYPE arguments with arbitrary bytes; client-supplied cursors past the last node and malformed cursors; distinct = distinct (node count, script-length class, argument shape) tuples and cursor classes")
+	r.Rule("cursor codec: boundary and PRNG (node index, node cursor < 2^48) pairs; iteration: 1-12 seed nodes, PRNG key distributions (empty nodes, one huge node, single pages of 1100-3600 keys), per-node scripted cursor sequences of length 1-30 with arbitrary distinct values < 2^48 (incl. >= 2^47) ending in 0, COUNT / MATCH / TYPE arguments with arbitrary bytes; client-supplied cursors past the last node and malformed cursors; distinct = distinct (node count, script-length class, argument shape) tuples and cursor classes")
 	r.Assume("the proxy iterates its healthy seed-host list sorted by address (string order); node indices >= 32768 need 32768 seed hosts and are outside the workload")
 	runAPIPart(r, "cursor", false, nil, 5*time.Minute)
 	iters := 120
@@ -131,6 +131,20 @@ func c18Iterations(r *ev.Run, race bool, iters int, seed int64) {
 			np := 1 + rnd.Intn(30)
 			if rnd.Intn(2) == 0 {
 				np = 1 + rnd.Intn(3)
+			}
+			if ni == huge && it%4 == 1 {
+				// one page with more keys than any internal array limit is likely to be (COUNT is only a hint to the server)
+				for _, k := range keys {
+					delete(allKeys, k)
+				}
+				nk = 1100 + rnd.Intn(2500)
+				keys = make([]string, nk)
+				for k := range keys {
+					keys[k] = fmt.Sprintf("n%d.big%d.%x", ni, k, rnd.Intn(1<<20))
+					allKeys[keys[k]] = true
+				}
+				np = 1 + rnd.Intn(2)
+				r.Count("iterations_with_a_page_of_more_than_1024_keys", 1)
 			}
 			used := map[uint64]bool{0: true}
 			pages := make([]scanPage, np)
